@@ -8,15 +8,16 @@ STAT_NAMES = ["set_ok", "set_EINVAL", "set_EPROTO", "set_EADDRINUSE", "set_EIO",
               "section_for_own_key", "line_validated_against_placeholder", "prefix_taken_from_other_peer",
               "minus_removal_removed", "minus_removal_no_effect", "update_only_removed_created_peer", "remove_removed_peer",
               "private_key_change_dropped_peer", "replace_peers_dropped_peers", "peer_created",
-              "replace_allowed_ips_dropped_prefixes", "roundtrips_compared"]
+              "replace_allowed_ips_dropped_prefixes", "roundtrips_compared", "undelivered_gets"]
 
 
 class Prop:
     pid = "C09"
     vo_check = ["theories/Uapi/Check.vo"]
     vo_props = ["theories/Props/C09.vo"]
-    k_names = ["errno+get(Device.IpcSet/IpcGet/IpcHandle/Up/Down == Uapi.Model.step)"]
-    rule = ("operation sequences (set texts, Up, Down) on a real Device over an in-memory bind: fixed scenarios for every "
+    k_names = ["errno+get(Device.IpcSet/IpcGet/IpcGetOperation/IpcHandle/Up/Down == Uapi.Model.step)"]
+    rule = ("operation sequences (set texts, Up, Down, gets whose output cannot be delivered: failing writer / IpcHandle "
+            "client hanging up, each followed on the same goroutine by an ordinary get) on a real Device over an in-memory bind: fixed scenarios for every "
             "corner pinned in DESIGN.md C09 plus sequences from one PRNG (all keys; valid, boundary and invalid values; "
             "several peers from a small key pool incl. the device's own public key, the zero key; prefixes with host bits "
             "moving between peers; '-' removal; replace_*; remove/update_only in every position; private-key changes onto "
